@@ -308,6 +308,8 @@ type party struct {
 	minV     byte
 	maxV     byte
 	finished time.Duration
+	// refused: a callback of this party was invoked and returned an error
+	refused []string
 }
 
 type hsSpec struct {
@@ -318,21 +320,38 @@ type hsSpec struct {
 	auth             []byte
 	cMin, cMax       byte
 	sMin, sMax       byte
+	// callbacks that refuse (return an error): the application cannot store
+	// the key / does not accept the payload
+	cliRefuseKey, cliRefuseAuth, srvRefuseKey bool
 }
 
 // runHandshake runs ClientHandshake and ServerHandshake as two tasks over the
 // given duplex ends; start order is a tape choice.
 func runHandshake(rc *simrt.RunCtx, sp hsSpec, ca, cb *simConn) (cli, srv *party) {
-	mk := func(key keychain.SingleKeyECDH, remote *btcec.PublicKey, pass, auth []byte, minV, maxV byte) *party {
+	mk := func(key keychain.SingleKeyECDH, remote *btcec.PublicKey, pass, auth []byte, minV, maxV byte, refuseKey, refuseAuth bool) *party {
 		p := &party{key: key, done: make(chan struct{}), minV: minV, maxV: maxV}
 		p.data = NewConnData(key, remote, pass, auth,
-			func(k *btcec.PublicKey) error { p.gotKeys = append(p.gotKeys, k); return nil },
-			func(d []byte) error { p.gotAuth = append(p.gotAuth, append([]byte(nil), d...)); return nil })
+			func(k *btcec.PublicKey) error {
+				if refuseKey {
+					p.refused = append(p.refused, "onRemoteStatic")
+					return errors.New("application refuses the remote key")
+				}
+				p.gotKeys = append(p.gotKeys, k)
+				return nil
+			},
+			func(d []byte) error {
+				if refuseAuth {
+					p.refused = append(p.refused, "onAuthData")
+					return errors.New("application refuses the auth data")
+				}
+				p.gotAuth = append(p.gotAuth, append([]byte(nil), d...))
+				return nil
+			})
 		p.conn = NewNoiseGrpcConn(p.data, WithMinHandshakeVersion(minV), WithMaxHandshakeVersion(maxV))
 		return p
 	}
-	cli = mk(sp.cliKey, sp.cliRemote, sp.cliPass, nil, sp.cMin, sp.cMax)
-	srv = mk(sp.srvKey, sp.srvRemote, sp.srvPass, sp.auth, sp.sMin, sp.sMax)
+	cli = mk(sp.cliKey, sp.cliRemote, sp.cliPass, nil, sp.cMin, sp.cMax, sp.cliRefuseKey, sp.cliRefuseAuth)
+	srv = mk(sp.srvKey, sp.srvRemote, sp.srvPass, sp.auth, sp.sMin, sp.sMax, sp.srvRefuseKey, false)
 	startC := func() {
 		go func() {
 			cli.net, _, cli.err = cli.conn.ClientHandshake(context.Background(), "", ca)
